@@ -326,67 +326,129 @@ fn anchor_stmt(name: &str) -> Stmt {
 }
 
 /// Insert anchors into a block's statement list. Returns the names placed.
-fn place_anchors_in_block(block: &mut Block, anchors: &[AnchorReq], placed: &mut Vec<String>, errors: &mut Vec<String>) {
-    // start / end first (positions independent of matches)
-    let mut inserts: Vec<(usize, bool, String)> = vec![]; // (stmt index, after?, name)
-    for a in anchors {
-        match a.pos.as_str() {
-            "start" => inserts.push((0, false, a.name.clone())),
-            "end" => {
-                // before a trailing tail expression, else after last stmt
-                let n = block.stmts.len();
-                if n > 0 {
-                    if let Stmt::Expr(_, None) = &block.stmts[n - 1] {
-                        inserts.push((n - 1, false, a.name.clone()));
-                        continue;
-                    }
-                }
-                inserts.push((n, false, a.name.clone()));
+fn is_block_like(e: &Expr) -> bool {
+    matches!(e, Expr::If(_) | Expr::Match(_) | Expr::ForLoop(_) | Expr::While(_) | Expr::Loop(_) | Expr::Block(_) | Expr::Unsafe(_))
+}
+
+/// `unit_block`: the block's value is `()` (a loop body), so statements may follow its last expression.
+/// `start`/`end` anchors go into the scope's root block; `before`/`after` anchors search the root block and
+/// every block nested in it (if/else/match arms/inner loops) in pre-order; the match must be unique
+/// (nth = 0) or the nth one is taken.
+fn place_anchors_in_block(block: &mut Block, anchors: &[AnchorReq], placed: &mut Vec<String>, errors: &mut Vec<String>, unit_block: bool) {
+    if unit_block {
+        if let Some(Stmt::Expr(e, semi @ None)) = block.stmts.last_mut() {
+            if !is_block_like(e) {
+                *semi = Some(Default::default());
             }
-            "before" | "after" => {
-                let re = match Regex::new(&a.r#match) {
-                    Ok(r) => r,
-                    Err(e) => {
-                        errors.push(format!("anchor {}: bad regex: {}", a.name, e));
-                        continue;
-                    }
-                };
-                let hits: Vec<usize> = block.stmts.iter().enumerate().filter(|(_, s)| re.is_match(&stmt_text(s))).map(|(i, _)| i).collect();
-                let nth = a.nth; // 0 = must be unique, k>0 = k-th match
-                let idx = if nth == 0 {
-                    if hits.len() != 1 {
-                        errors.push(format!("lost anchor `{}`: /{}/ matches {} statements in scope {}", a.name, a.r#match, hits.len(), a.scope));
-                        continue;
-                    }
-                    hits[0]
-                } else {
-                    if hits.len() < nth {
-                        errors.push(format!("lost anchor `{}`: /{}/ has only {} matches in scope {}", a.name, a.r#match, hits.len(), a.scope));
-                        continue;
-                    }
-                    hits[nth - 1]
-                };
-                inserts.push((idx, a.pos == "after", a.name.clone()));
-            }
-            other => errors.push(format!("anchor {}: unknown pos `{}`", a.name, other)),
         }
     }
-    // apply from the back so indices stay valid; 'after' goes to idx+1
-    let mut ins: Vec<(usize, String)> = inserts.into_iter().map(|(i, after, n)| (if after { i + 1 } else { i }, n)).collect();
-    // stable: anchors with the same index keep request order
-    let mut indexed: Vec<(usize, usize, String)> = ins.drain(..).enumerate().map(|(k, (i, n))| (i, k, n)).collect();
-    indexed.sort_by(|a, b| (b.0, b.1).cmp(&(a.0, a.1)));
-    for (i, _, n) in indexed {
-        let i = i.min(block.stmts.len());
-        // an `after` on a tail expression would change the block's value: refuse
-        if i == block.stmts.len() && i > 0 {
-            if let Stmt::Expr(_, None) = &block.stmts[i - 1] {
-                errors.push(format!("anchor `{}` would follow the tail expression of its block", n));
+    // matched anchors first (they do not depend on start/end insertions)
+    for a in anchors.iter().filter(|a| a.pos == "before" || a.pos == "after") {
+        let re = match Regex::new(&a.r#match) {
+            Ok(r) => r,
+            Err(e) => {
+                errors.push(format!("anchor {}: bad regex: {}", a.name, e));
                 continue;
             }
+        };
+        // count
+        struct Counter<'r> { re: &'r Regex, n: usize }
+        impl<'r> VisitMut for Counter<'r> {
+            fn visit_block_mut(&mut self, b: &mut Block) {
+                for s in &b.stmts {
+                    if !is_anchor(s) && self.re.is_match(&stmt_text(s)) { self.n += 1; }
+                }
+                visit_mut::visit_block_mut(self, b);
+            }
         }
-        block.stmts.insert(i, anchor_stmt(&n));
-        placed.push(n);
+        let mut c = Counter { re: &re, n: 0 };
+        c.visit_block_mut(block);
+        let target = if a.nth == 0 {
+            if c.n != 1 {
+                errors.push(format!("lost anchor `{}`: /{}/ matches {} statements in scope {}", a.name, a.r#match, c.n, a.scope));
+                continue;
+            }
+            1
+        } else {
+            if c.n < a.nth {
+                errors.push(format!("lost anchor `{}`: /{}/ has only {} matches in scope {}", a.name, a.r#match, c.n, a.scope));
+                continue;
+            }
+            a.nth
+        };
+        struct Ins<'r> { re: &'r Regex, seen: usize, target: usize, after: bool, name: String, done: bool, err: Option<String> }
+        impl<'r> VisitMut for Ins<'r> {
+            fn visit_block_mut(&mut self, b: &mut Block) {
+                if self.done { return; }
+                let mut at: Option<usize> = None;
+                for (i, s) in b.stmts.iter().enumerate() {
+                    if !is_anchor(s) && self.re.is_match(&stmt_text(s)) {
+                        self.seen += 1;
+                        if self.seen == self.target { at = Some(i); break; }
+                    }
+                }
+                if let Some(i) = at {
+                    self.done = true;
+                    if self.after {
+                        let n_stmts = b.stmts.len();
+                        if let Stmt::Expr(e, semi @ None) = &mut b.stmts[i] {
+                            if i + 1 == n_stmts {
+                                // tail expression of its block: a following statement changes the block's value
+                                // unless the expression is block-like of unit type; refuse otherwise
+                                if !is_block_like(e) {
+                                    self.err = Some(format!("anchor `{}` would follow the tail expression of its block", self.name));
+                                    return;
+                                }
+                            } else if !is_block_like(e) {
+                                *semi = Some(Default::default());
+                            }
+                        }
+                        b.stmts.insert(i + 1, anchor_stmt(&self.name));
+                    } else {
+                        b.stmts.insert(i, anchor_stmt(&self.name));
+                    }
+                    return;
+                }
+                visit_mut::visit_block_mut(self, b);
+            }
+        }
+        let mut ins = Ins { re: &re, seen: 0, target, after: a.pos == "after", name: a.name.clone(), done: false, err: None };
+        ins.visit_block_mut(block);
+        if let Some(e) = ins.err {
+            errors.push(e);
+        } else if ins.done {
+            placed.push(a.name.clone());
+        } else {
+            errors.push(format!("lost anchor `{}`", a.name));
+        }
+    }
+    // end anchors (in request order), then start anchors (reverse order so the first ends up first)
+    for a in anchors.iter().filter(|a| a.pos == "end") {
+        let n = block.stmts.len();
+        let mut idx = n;
+        if n > 0 && !unit_block {
+            if let Stmt::Expr(_, None) = &block.stmts[n - 1] {
+                idx = n - 1;
+            }
+        }
+        block.stmts.insert(idx, anchor_stmt(&a.name));
+        placed.push(a.name.clone());
+    }
+    for a in anchors.iter().filter(|a| a.pos == "start").collect::<Vec<_>>().into_iter().rev() {
+        block.stmts.insert(0, anchor_stmt(&a.name));
+        placed.push(a.name.clone());
+    }
+    for a in anchors {
+        if !["before", "after", "start", "end"].contains(&a.pos.as_str()) {
+            errors.push(format!("anchor {}: unknown pos `{}`", a.name, a.pos));
+        }
+    }
+}
+
+fn is_anchor(s: &Stmt) -> bool {
+    match s {
+        Stmt::Macro(m) => m.mac.path.is_ident("__vx_anchor"),
+        _ => false,
     }
 }
 
@@ -407,7 +469,7 @@ impl<'a> VisitMut for LoopAnchorPlacer<'a> {
             let s = lb.name.ident.to_string();
             if let Some(k) = s.strip_prefix("vxl_").and_then(|x| x.parse::<usize>().ok()) {
                 if let Some(list) = self.by_loop.remove(&k) {
-                    place_anchors_in_block(body, &list, self.placed, self.errors);
+                    place_anchors_in_block(body, &list, self.placed, self.errors, true);
                 }
             }
         }
@@ -423,11 +485,48 @@ fn extract_fn(file: &File, req: &ItemReq, resp: &mut ItemResp) -> std::result::R
     resp.src_hash = fnv(&format!("{} {}", resp.orig_sig, norm_tokens(found.block.to_token_stream())));
     let mut block = found.block;
 
+    // 0. R-mutself: `fn f(mut self, ..)` is `fn f(self, ..) { let mut __vx_self = self; .. }` with every
+    //    use of `self` in the body renamed (Verus has no `mut self` parameters)
+    let mut pre_log: Vec<RewriteLog> = vec![];
+    if req.rules.iter().any(|r| r == "R-mutself") {
+        if let Some(FnArg::Receiver(rc)) = found.sig.inputs.first() {
+            if rc.reference.is_none() && rc.mutability.is_some() {
+                struct Ren;
+                impl VisitMut for Ren {
+                    fn visit_ident_mut(&mut self, i: &mut proc_macro2::Ident) {
+                        if i == "self" {
+                            *i = proc_macro2::Ident::new("__vx_self", i.span());
+                        }
+                    }
+                    fn visit_macro_mut(&mut self, m: &mut Macro) {
+                        // rename inside macro token streams as well (e.g. vec![self.x])
+                        fn ren(ts: proc_macro2::TokenStream) -> proc_macro2::TokenStream {
+                            ts.into_iter().map(|tt| match tt {
+                                proc_macro2::TokenTree::Ident(i) if i == "self" => proc_macro2::TokenTree::Ident(proc_macro2::Ident::new("__vx_self", i.span())),
+                                proc_macro2::TokenTree::Group(g) => {
+                                    let mut ng = proc_macro2::Group::new(g.delimiter(), ren(g.stream()));
+                                    ng.set_span(g.span());
+                                    proc_macro2::TokenTree::Group(ng)
+                                }
+                                other => other,
+                            }).collect()
+                        }
+                        m.tokens = ren(m.tokens.clone());
+                    }
+                }
+                Ren.visit_block_mut(&mut block);
+                block.stmts.insert(0, parse_quote!( let mut __vx_self = self; ));
+                pre_log.push(RewriteLog { rule: "R-mutself".into(), line: found.line_start, before: "mut self".into(), after: "self + `let mut __vx_self = self;` and self -> __vx_self in the body".into() });
+            }
+        }
+    }
+
     // 1. rewrite rules
     let enabled: HashSet<String> = req.rules.iter().cloned().collect();
     let mut rw = Rewriter::new(enabled);
     rw.visit_block_mut(&mut block);
-    resp.rewrites = std::mem::take(&mut rw.log);
+    resp.rewrites = pre_log;
+    resp.rewrites.extend(std::mem::take(&mut rw.log));
     resp.dropped = std::mem::take(&mut rw.dropped);
     if !rw.errors.is_empty() {
         return Err(rw.errors.join("; "));
@@ -463,7 +562,7 @@ fn extract_fn(file: &File, req: &ItemReq, resp: &mut ItemResp) -> std::result::R
         let mut lap = LoopAnchorPlacer { by_loop, placed: &mut placed, errors: &mut errors };
         lap.visit_block_mut(&mut block);
     }
-    place_anchors_in_block(&mut block, &fn_anchors, &mut placed, &mut errors);
+    place_anchors_in_block(&mut block, &fn_anchors, &mut placed, &mut errors, false);
     for a in &req.anchors {
         if !placed.contains(&a.name) && errors.is_empty() {
             errors.push(format!("lost anchor `{}`", a.name));
